@@ -440,6 +440,108 @@ fn recycle_inner(ctx: &mut Ctx, state: u64, case: &J) -> Result<(), String> {
 }
 
 // ------------------------------------------------------------------------------------------
+// index sorting: the doc_id_map branch of Recorder::serialize
+// ------------------------------------------------------------------------------------------
+fn check_sorted_index(ctx: &mut Ctx, state: u64) {
+    let case = json!({"kind": "sorted-index", "state": state.to_string()});
+    let r = catch_unwind(AssertUnwindSafe(|| sorted_index_inner(ctx, state, &case)));
+    match r {
+        Ok(Ok(())) => {}
+        Ok(Err(e)) => ctx.report.violation("oracle", "C07:read-error", format!("sorted index case: {e}"), case),
+        Err(p) => ctx.report.violation("oracle", "C07:panic", format!("sorted index case: {}", panic_msg(p)), case),
+    }
+}
+
+fn sorted_index_inner(ctx: &mut Ctx, state: u64, case: &J) -> Result<(), String> {
+    use tantivy::{IndexSettings, IndexSortByField, Order};
+    let mut rng = Rng(state);
+    let opt = *rng.pick(&[Opt::Basic, Opt::Freqs, Opt::Positions]);
+    let n = match rng.below(4) { 0 => 1 + rng.usize_below(5), 1 => 20 + rng.usize_below(60), 2 => 129 + rng.usize_below(10), _ => 260 + rng.usize_below(100) };
+    let desc = rng.chance(1, 2);
+    let mut keys: Vec<u64> = (0..n as u64).collect();
+    rng.shuffle(&mut keys);
+    let vocab = ["a", "b", "cc", "d", "e", "rare"];
+    // doc -> values (each value one raw token)
+    let docs: Vec<Vec<&str>> = (0..n)
+        .map(|i| {
+            let k = rng.usize_below(5);
+            let mut v: Vec<&str> = (0..k).map(|_| { let m = if rng.chance(1, 20) { 6 } else { 3 }; vocab[rng.usize_below(m)] }).collect();
+            if i % 2 == 0 || rng.chance(1, 3) {
+                v.push("all");
+            }
+            v
+        })
+        .collect();
+    let mut sb = Schema::builder();
+    let f = text_field(&mut sb, "t", opt, "raw");
+    let kf = sb.add_u64_field("k", tantivy::schema::FAST | tantivy::schema::INDEXED);
+    let index = Index::builder()
+        .schema(sb.build())
+        .settings(IndexSettings { sort_by_field: Some(IndexSortByField { field: "k".to_string(), order: if desc { Order::Desc } else { Order::Asc } }), ..Default::default() })
+        .create_in_ram()
+        .map_err(|e| e.to_string())?;
+    let mut w: IndexWriter = index.writer_with_num_threads(1, 50_000_000).map_err(|e| e.to_string())?;
+    for (i, d) in docs.iter().enumerate() {
+        let mut doc = TantivyDocument::default();
+        for v in d {
+            doc.add_text(f, v);
+        }
+        doc.add_u64(kf, keys[i]);
+        w.add_document(doc).map_err(|e| e.to_string())?;
+    }
+    w.commit().map_err(|e| e.to_string())?;
+    drop(w);
+    let new_id: Vec<u32> = keys.iter().map(|k| if desc { (n as u64 - 1 - k) as u32 } else { *k as u32 }).collect();
+    // expectation: invert the corpus in the new order
+    let mut order: Vec<usize> = (0..n).collect();
+    order.sort_by_key(|i| new_id[*i]);
+    let mut want: std::collections::BTreeMap<Vec<u8>, Vec<Posting>> = Default::default();
+    for (nd, old) in order.iter().enumerate() {
+        let mut per: std::collections::BTreeMap<&str, Vec<u32>> = Default::default();
+        for (pos, v) in docs[*old].iter().enumerate() {
+            // one raw token per value: position = 2 * value index (token length 1 + gap 1)
+            per.entry(v).or_default().push(2 * pos as u32);
+        }
+        for (t, ps) in per {
+            want.entry(t.as_bytes().to_vec()).or_default().push((nd as u32, ps.len() as u32, ps));
+        }
+    }
+    let project = |l: &Vec<Posting>| -> Vec<Posting> {
+        l.iter().map(|(d, tf, ps)| match opt { Opt::Basic => (*d, 1, vec![]), Opt::Freqs => (*d, *tf, vec![]), Opt::Positions => (*d, *tf, ps.clone()) }).collect()
+    };
+    let text = |l: &[Posting]| -> String {
+        l.iter().map(|(d, tf, ps)| format!("{d}:{tf}:{}", if ps.is_empty() { "-".to_string() } else { ps.iter().map(|p| p.to_string()).collect::<Vec<_>>().join(".") })).collect::<Vec<_>>().join(",")
+    };
+    let mut real_entries = vec![];
+    for (t, l) in &want {
+        let term = std::str::from_utf8(t).unwrap();
+        let (got, df) = read_term(&index, f, term, opt == Opt::Positions)?;
+        let exp = project(l);
+        ctx.report.case(&format!("sorted-index|{}|{n}|{desc}|{term}|{}", opt.name(), l.len()), true);
+        ctx.report.count(&format!("sorted-index:{}", opt.name()));
+        if got != exp || df as usize != l.len() {
+            ctx.report.violation("oracle", "C07:sorted-index-postings", format!("index sorted by a u64 field ({}, {n} docs, {}): term `{term}`: {}", opt.name(), if desc { "desc" } else { "asc" }, first_diff(&exp, &got)), case.clone());
+        }
+        real_entries.push(format!("{}={}", hex(t), text(&got)));
+    }
+    // the Lean model of the doc_id_map branch on the corpus in arrival order
+    let corpus: Vec<String> = docs.iter().map(|d| d.iter().map(|v| format!("{}:0:1", hex(v.as_bytes()))).collect::<Vec<_>>().join("/")).collect();
+    let ids = new_id.iter().map(|x| x.to_string()).collect::<Vec<_>>().join(",");
+    let m = ctx.model.ask(&format!("C07 pipeline_remap {} {ids} {}", opt.name(), corpus.join(";")));
+    if m == "bad-op" {
+        ctx.report.violation("model", "C07:model-unavailable", "the Lean driver answers bad-op for pipeline_remap".into(), json!({"kind": "probe"}));
+    } else {
+        let mt = m.split('|').next().unwrap_or("");
+        let real = if real_entries.is_empty() { "-".to_string() } else { real_entries.join(";") };
+        if mt != real {
+            let sh = |s: &str| if s.len() > 160 { format!("{}…", &s[..160]) } else { s.to_string() };
+            ctx.report.violation("model", "C07:model-pipeline-remap", format!("sorted index ({}, {n} docs): real {} model {}", opt.name(), sh(&real), sh(mt)), case.clone());
+        }
+    }
+    Ok(())
+}
+
+// ------------------------------------------------------------------------------------------
 // recycled block cursor on raw term bytes: real reset vs expectation (oracle) and vs the model
 // ------------------------------------------------------------------------------------------
 fn check_recycle_codec(ctx: &mut Ctx, opt: Opt, a: &(Vec<u32>, Vec<u32>), b: &(Vec<u32>, Vec<u32>), mv: &str, model: bool) {
@@ -748,6 +850,7 @@ pub fn obligations() -> Vec<String> {
         "TermInfoStore bytes written through TermDictionaryBuilder = model `tis_write`; model `tis_get` of the real bytes = written TermInfo; TermDictionary::get = written TermInfo".into(),
         "serialize_vint_u32 bytes / read_u32_vint_no_advance = model (unrolled ladder with extracted thresholds); round trip on the real code".into(),
         "segments whose recorders see 2^(7k)-1, 2^(7k), 2^(7k)+1 as position+1, term frequency or doc-id gap read back exactly".into(),
+        "index sorted by a fast field (doc_id_map branch of Recorder::serialize): read-back = inversion in the new order = model `pipeline_remap`".into(),
         "recycled block cursor (read_block_postings_from_terminfo, advance/drain/seek, reset_block_postings_from_terminfo) enumerates exactly the new term".into(),
     ]
 }
@@ -763,6 +866,7 @@ pub fn replay(ctx: &mut Ctx, case: &J) -> bool {
             let has = ctx.model.ask("C07 recycle basic 0 - A0 0 -") != "bad-op";
             check_recycle_codec(ctx, opt, &(u("a_docs"), u("a_tfs")), &(u("b_docs"), u("b_tfs")), case["move"].as_str().unwrap_or("A0"), has);
         }
+        "sorted-index" => check_sorted_index(ctx, case["state"].as_str().and_then(|s| s.parse().ok()).unwrap_or(0)),
         "json-recycle" => check_json_recycle(ctx, case["ndocs"].as_u64().unwrap_or(300) as u32, Opt::from_name(case["opt"].as_str().unwrap_or("")).unwrap_or(Opt::Freqs)),
         "json-nontext-positions" => check_json_nontext_positions(ctx, case["ndocs"].as_u64().unwrap_or(3) as u32),
         "terminfo" => {
@@ -796,6 +900,10 @@ pub fn run(ctx: &mut Ctx, model_has_vint32: bool) {
     for _ in 0..ctx.budget(6, 120) {
         let state = ctx.rng.fork().0;
         check_recycle(ctx, state);
+    }
+    for _ in 0..ctx.budget(12, 240) {
+        let state = ctx.rng.fork().0;
+        check_sorted_index(ctx, state);
     }
     let has_recycle = ctx.model.ask("C07 recycle basic 0 - A0 0 -") != "bad-op";
     if !has_recycle {
